@@ -262,6 +262,21 @@ def r6_solver_chain_wiring(ctx):
     ss = ctx.func(EQ, "EqSystem._SymbolicSys_from_NumSys")
     ctx.check(has(ss, "ns = NS(self, backend=sp, rref_equil=rref_equil, rref_preserv=rref_preserv, precipitates=conds, new_eq_params=new_eq_params)"), EQ + ":EqSystem._SymbolicSys_from_NumSys", "flags-forwarded",
               "the NumSys must receive its own rref flags and precipitate conditions", node=ss)
+    # every stage starts from the guess it is handed (in a chain: the previous stage's result), not from something it recomputes
+    for cls in ("NumSysLin", "NumSysSquare", "NumSysLinTanh", "NumSysLog"):
+        fn = ctx.func(EQS, cls + ".internal_x0_cb")
+        a = EQS + ":" + cls + ".internal_x0_cb"
+        params = [p_.arg for p_ in fn.args.args]
+        guess = params[1] if len(params) >= 2 else None
+        rets = [n for n in walk_shallow(fn) if isinstance(n, ast.Return)]
+        rebound = [n for n in ast.walk(fn) if isinstance(n, ast.Name) and isinstance(n.ctx, ast.Store)]
+        ok = guess is not None and len(rets) == 1 and not rebound and any(isinstance(x, ast.Name) and x.id == guess for x in ast.walk(rets[0].value))
+        ctx.check(ok, a, "starts-from-the-given-guess", "internal_x0_cb must compute the start vector from its first argument (the guess handed to this stage) in a single return, "
+                  "without locals that could stand in for it; found %s" % (U(rets[0].value) if rets else "no return"), node=fn)
+    fn = ctx.func(EQS, "NumSysLin.internal_x0_cb")
+    g = fn.args.args[1].arg if len(fn.args.args) > 1 else "?"
+    ctx.check(has(fn, "return (99 * %s + self.eqsys.dissolved(%s)) / 100" % (g, g)), EQS + ":NumSysLin.internal_x0_cb", "x0=99%guess+1%dissolved",
+              "the linear formulation starts from (99*guess + dissolved(guess))/100", node=fn)
     gn = ctx.func(EQ, "EqSystem.get_neqsys")
     ctx.check(has(gn, "return getattr(self, 'get_neqsys_' + neqsys_type)(**new_kw)") and has(gn, "new_kw['NumSys'] = (NumSys,)"), EQ + ":EqSystem.get_neqsys", "dispatch", "get_neqsys must dispatch on the type name with a tuple of NumSys classes", node=gn)
 
@@ -317,7 +332,7 @@ RULES = [
     Rule("C08-R2", r2_sanity_test, 6, "_result_is_sane: existential tests, True only when neither holds"),
     Rule("C08-R3", r3_failure_surfaced, 7, "failed solve warns; EqCalcResult stores one call's results"),
     Rule("C08-R4", r4_precipitation, 8, "precipitation switching conditions mirror each other; dissolved() stoichiometric"),
-    Rule("C08-R6", r6_solver_chain_wiring, 9, "solver chain: one system per NumSys stage, no late-bound loop variable"),
+    Rule("C08-R6", r6_solver_chain_wiring, 14, "solver chain: one system per NumSys stage, no late-bound loop variable"),
     Rule("C08-R7", r7_skeleton, 19, "bracket arms, precipitate lookup, solver-factory dispatch, default guess"),
     Rule("C08-R5", r5_scalar_solver, 6, "scalar solver: residual K-Q along c0+nu*rc, result on the same coordinate"),
 ]
@@ -354,3 +369,6 @@ TWINS = [
     Twin("sanity-separate-assigns", [(EQ, "        neg_conc, too_much = np.any(x < 0), np.any(x > sc_upper_bounds * (1 + rtol))\n", "        neg_conc = np.any(x < 0)\n        too_much = np.any(x > (1 + rtol) * sc_upper_bounds)\n")]),
     Twin("sanity-or-commuted", [(EQ, "        if neg_conc or too_much:\n            if neg_conc:", "        if too_much or neg_conc:\n            if neg_conc:")]),
 ]
+
+MUTANTS.append(Mutant("x0-ignores-the-guess", [(EQS, "    def internal_x0_cb(self, init_concs, params):\n        # reduce risk of stationary starting point\n",
+                                                 "    def internal_x0_cb(self, x0, params):\n        # reduce risk of stationary starting point\n        init_concs = params[: self.eqsys.ns]\n")], "C08-R6", "starts-from-the-given-guess"))
